@@ -35,6 +35,8 @@ type obligation struct {
 	Excused  string // known-finding id that excuses it
 	Inputs   []string // terms to get-value on failure
 	SizeB    int
+	vc       *funcVC
+	Splits   []string // case split (edge conditions of the nearest join) tried when the plain query is inconclusive
 }
 
 type funcVC struct {
@@ -64,10 +66,13 @@ type funcVC struct {
 	opaqueModule []string
 	stack []*ssa.Function
 	retResults [][]string
+	layer string // verification layer ("" = base)
 	guard string // path condition under which facts about the current values are assumed
 }
 
 type retInfo struct {
+	block   *ssa.BasicBlock
+	pos     string
 	cond    string
 	st      *state
 	results []string
@@ -91,6 +96,7 @@ type frame struct {
 	curBlock *ssa.BasicBlock
 	ct      *contract
 	entryCond string
+	inits *initInfo
 }
 
 type loopInfo struct {
@@ -109,6 +115,7 @@ func (vc *funcVC) addObl(o *obligation) {
 	o.Func = vc.fn.String()
 	o.Name = o.Func + "/" + o.Name
 	o.ctx = vc.c
+	o.vc = vc
 	o.NAssume = len(vc.c.assumes)
 	if len(o.Props) == 0 {
 		o.Props = vc.props
@@ -173,7 +180,7 @@ func (vc *funcVC) run() (err error) {
 	// requires
 	for _, ct := range vc.allContracts() {
 		tr := vc.contractTrans(ct, fn, nil, st, st)
-		for _, cl := range ct.Clauses {
+		for _, cl := range ct.clausesFor(vc.layer) {
 			if cl.Kind == "requires" {
 				c.assume(vc.trClause(tr, cl))
 			}
@@ -183,7 +190,7 @@ func (vc *funcVC) run() (err error) {
 	if vc.safety && vc.recursive(fn) {
 		hasDec := false
 		for _, ct := range vc.allContracts() {
-			for _, cl := range ct.Clauses {
+			for _, cl := range ct.clausesFor(vc.layer) {
 				if cl.Kind == "decreases" {
 					hasDec = true
 				}
@@ -193,7 +200,7 @@ func (vc *funcVC) run() (err error) {
 			vc.assumed["termination of the recursive function "+fn.String()+" is not proved (no decreases clause)"] = true
 		}
 	}
-	if vc.ct != nil && vc.ct.Unreachable {
+	if vc.ct != nil && vc.ct.Unreachable && vc.ct.UnreachableLayer == vc.layer {
 		vc.addObl(&obligation{Name: "unreachable/requires", Kind: "pre", Goal: "true", Clause: "the precondition is unsatisfiable for this receiver", Pos: fmt.Sprintf("%s:%d", relPath(vc.ct.File), vc.ct.Line)})
 		return nil
 	}
@@ -203,14 +210,14 @@ func (vc *funcVC) run() (err error) {
 		vc.retResults = append(vc.retResults, r.results)
 		for _, ct := range vc.allContracts() {
 			tr := vc.contractTrans(ct, fn, r.results, r.st, vc.entry)
-			for _, cl := range ct.Clauses {
+			for _, cl := range ct.clausesFor(vc.layer) {
 				if cl.Kind != "ensures" {
 					continue
 				}
 				f := vc.trClause(tr, cl)
 				vc.addObl(&obligation{Name: fmt.Sprintf("ensures/%s@ret%d", cl.Label, i+1), Kind: "ensures", Label: cl.Label,
-					Goal: and(r.cond, not(f)), Pos: fmt.Sprintf("%s:%d", relPath(cl.File), cl.Line), Clause: cl.Src, Props: propsOfLabel(cl.Label, vc.props),
-					Inputs: vc.inputTerms()})
+					Goal: and(r.cond, not(f)), Pos: fmt.Sprintf("%s:%d", relPath(cl.File), cl.Line), Clause: cl.Src + "   [at the return in " + r.pos + "]", Props: propsOfLabel(cl.Label, vc.props),
+					Inputs: vc.inputTerms(), Splits: fr.joinSplits(r.block)})
 			}
 		}
 	}
@@ -372,6 +379,7 @@ func (vc *funcVC) newFrame(fn *ssa.Function, prefix string, depth int) *frame {
 		debug: map[string][]*ssa.DebugRef{}}
 	fr.findRegs()
 	fr.findLoops()
+	fr.inits = computeInitStores(fn, fr.regs)
 	for _, b := range fn.Blocks {
 		for _, ins := range b.Instrs {
 			if d, ok := ins.(*ssa.DebugRef); ok && !d.IsAddr {
@@ -824,7 +832,7 @@ func (fr *frame) enterLoop(li *loopInfo, h *ssa.BasicBlock, pre *state, enter st
 	c := vc.c
 	// contract clauses for this loop
 	if fr.ct != nil {
-		for _, cl := range fr.ct.Clauses {
+		for _, cl := range fr.ct.clausesFor(vc.layer) {
 			if cl.Loop == li.ordinal && cl.Kind == "loopinv" {
 				li.invs = append(li.invs, cl)
 			}
@@ -879,7 +887,7 @@ func (fr *frame) enterLoop(li *loopInfo, h *ssa.BasicBlock, pre *state, enter st
 	// header state: havoc what the loop body may modify
 	hst := pre.clone()
 	ms := vc.ma.region(fr.fn, li.body)
-	vc.havoc(hst, pre, ms, fmt.Sprintf("loop%d", li.ordinal))
+	vc.havoc(hst, pre, ms, fmt.Sprintf("loop%d", li.ordinal), func(v ssa.Value) (string, bool) { return fr.val(v), true })
 	// register locals assigned in the loop
 	for _, b := range fr.fn.Blocks {
 		if !li.body[b] {
@@ -1047,7 +1055,7 @@ func (fr *frame) iterKey(r *ssa.Range) string {
 }
 
 // havoc replaces what ms may write by fresh versions in st (pre is the state before), adding frame axioms.
-func (vc *funcVC) havoc(st, pre *state, ms *modset, why string) {
+func (vc *funcVC) havoc(st, pre *state, ms *modset, why string, rootTerm func(ssa.Value) (string, bool)) {
 	c := vc.c
 	keys := map[string]bool{}
 	for k := range ms.real {
@@ -1069,6 +1077,27 @@ func (vc *funcVC) havoc(st, pre *state, ms *modset, why string) {
 		st.heap[k] = n
 		sh := ms.real[k]
 		if sh.any {
+			continue
+		}
+		if !strings.HasPrefix(k, "H_") {
+			// map arrays: only the maps named by the roots may have changed
+			var guard []string
+			ok := true
+			for r := range sh.roots {
+				t, found := "", false
+				if rootTerm != nil {
+					t, found = rootTerm(r)
+				}
+				if !found {
+					ok = false
+					break
+				}
+				guard = append(guard, fmt.Sprintf("(distinct fa!x %s)", t))
+			}
+			if ok {
+				sort.Strings(guard)
+				c.assume(fmt.Sprintf("(forall ((fa!x Ref)) (! (=> %s (= (select %s fa!x) (select %s fa!x))) :pattern ((select %s fa!x))))", and(guard...), n, old, n))
+			}
 			continue
 		}
 		var guard []string
@@ -1132,6 +1161,30 @@ func rangeIndexBound(phi *ssa.Phi) ssa.Value {
 			if ok && cmp.Op == token.LSS && cmp.X == add && cmp.Block() == phi.Block() {
 				return cmp.Y
 			}
+		}
+	}
+	return nil
+}
+
+// joinSplits returns the edge conditions into the nearest join block dominating b (a partition of the paths
+// reaching b), or nil.
+func (fr *frame) joinSplits(b *ssa.BasicBlock) []string {
+	for x := b; x != nil; x = x.Idom() {
+		var conds []string
+		for _, p := range x.Preds {
+			if x.Dominates(p) {
+				continue // back edge
+			}
+			if _, ok := fr.out[p]; !ok {
+				continue
+			}
+			conds = append(conds, fr.edgeCond(p, x))
+		}
+		if len(conds) >= 2 {
+			if fr.loops[x] != nil {
+				continue
+			}
+			return conds
 		}
 	}
 	return nil
